@@ -473,13 +473,25 @@ func runC19(r *core.Run) {
 		"PREPARE p FROM 'SELECT ?'; PREPARE q FROM 'EXECUTE p USING ?'; EXECUTE q USING 1;", "PREPARE p FROM 'SELECT :a'; PREPARE q FROM 'EXECUTE p USING :a AS a'; EXECUTE q USING 1 AS a;",
 		"PREPARE p FROM 'SELECT ?'; EXECUTE p;", "PREPARE p FROM 'SELECT ?'; EXECUTE p USING 1, 2;",
 		"PREPARE p FROM 'SELECT id FROM t WHERE id = ?'; DECLARE c CURSOR FOR p; PREPARE q FROM 'OPEN c USING ?'; EXECUTE q USING 2;",
-		"SELECT COUNT(DISTINCT 1), COUNT(DISTINCT *), COUNT(DISTINCT NULL) FROM t;")
+		"SELECT COUNT(DISTINCT 1), COUNT(DISTINCT *), COUNT(DISTINCT NULL) FROM t;",
+		// statements inside a function that is called from a statement
+		"DECLARE f FUNCTION (@x) AS BEGIN INSERT INTO t VALUES (9, 'z'); RETURN @x; END; SELECT f(id) FROM t; ROLLBACK;",
+		"DECLARE f FUNCTION (@x) AS BEGIN INSERT INTO t VALUES (9, 'z'); RETURN @x; END; UPDATE t SET v = f(id) WHERE id = 1; ROLLBACK;",
+		"DECLARE f FUNCTION (@x) AS BEGIN UPDATE t SET v = 'q'; RETURN @x; END; DELETE FROM t WHERE f(id) = 1; ROLLBACK;",
+		"DECLARE f FUNCTION (@x) AS BEGIN COMMIT; RETURN @x; END; INSERT INTO t VALUES (f(5), 'w'); ROLLBACK;",
+		"DECLARE f FUNCTION (@x) AS BEGIN ROLLBACK; RETURN @x; END; SELECT f(id) FROM t;",
+		"DECLARE f FUNCTION (@x) AS BEGIN DECLARE c CURSOR FOR SELECT id FROM t; OPEN c; RETURN @x; END; SELECT f(id) FROM t WHERE f(id) > 0 ORDER BY f(id);")
 	classes, errs := isolatedExec(r, stmts, map[string]string{"t.csv": "id,v\n1,a\n2,b\n3,\n"})
 	for i, s := range stmts {
 		r.Distinct(s)
 		fn := s
 		if k := strings.IndexAny(strings.TrimPrefix(s, "SELECT "), "( "); k > 0 {
 			fn = strings.TrimPrefix(s, "SELECT ")[:k]
+		}
+		if strings.HasPrefix(s, "DECLARE f FUNCTION") {
+			// a statement in a function called from a statement: named by the two statement kinds
+			i1, i2 := strings.Index(s, "BEGIN ")+6, strings.Index(s, "END; ")+5
+			fn = "nested:" + strings.Trim(strings.Fields(s[i1:])[0], ";") + "-in-" + strings.Fields(s[i2:])[0]
 		}
 		add(map[string]interface{}{"kind": "nofatal", "class": classes[i]}, s+" -> "+errs[i], "internal-failure:"+fn+":"+failKind(errs[i])+argClasses(s))
 	}
